@@ -5,6 +5,7 @@ from props.c14 import level_element
 
 ID = "C15"
 HEAP_SUMMARY = True      # end every program with the reference-level observation (BB.Model.Heap vs id() walk)
+UNIVERSAL_EVERY = 4      # every n-th case is a feature-rich random program (props/universal.py)
 LEAN_MODULE = "BB.Properties.C15"
 QUICK_N = 60
 THOROUGH_N = 1200
